@@ -210,6 +210,7 @@ type Req struct {
 	Deadline int64 // virtual ticks after start; 0 none
 	PlannedCancel int // CancelAt as generated (Local.CancelAt is consumed during the run)
 	Tag      string
+	Chain    int // chain the request is meant to run (route index, -1 not-found), -99 unknown
 
 	// Recorded.
 	W       *Spy
